@@ -47,8 +47,30 @@ def parse(text, st):
     return P.parse(text, settings=st)
 
 
-def real_check(text, st):
-    """Returns (canonical line, oplist, program, parse_messages, exception)."""
+HANGS = [0]
+
+
+def real_check(text, st, limit=20):
+    """Returns (canonical line, oplist, program, parse_messages, exception). A front end that does not return within
+    `limit` seconds is reported as the exception `parse:Hang` (every caller treats an exception as the front end's fault)."""
+    import signal
+    from .dbg import Hang, _alarm
+    if HANGS[0] >= 3:
+        # three texts have already shown that the front end does not return: do not wait for every further one
+        return None, None, None, None, "parse:Hang-not-retried"
+    old = signal.signal(signal.SIGALRM, _alarm)
+    signal.setitimer(signal.ITIMER_REAL, limit)
+    try:
+        return _real_check(text, st)
+    except Hang:
+        HANGS[0] += 1
+        return None, None, None, None, "parse:Hang"
+    finally:
+        signal.setitimer(signal.ITIMER_REAL, 0)
+        signal.signal(signal.SIGALRM, old)
+
+
+def _real_check(text, st):
     P, C, D, O = hera()
     with proto.Capture() as cap:
         try:
